@@ -34,6 +34,7 @@ def closure(facts, people_of_boss):
                 p = people_of_boss[s]
                 new |= {("works_for", p, o), ("member_of", p, o), ("members", o, s)}  # super properties live on the role taker
             elif f == "sub_org_of":
+                new |= {("related_to", s, o)}  # super property (also of the transitively inferred relations)
                 for (g, s2, o2) in F:
                     if g == "sub_org_of" and s2 == o:
                         new.add(("sub_org_of", s, o2))
@@ -141,7 +142,7 @@ def sequence_case(L, n_org, n_hum, with_boss, first):
         # the fields agree with the graph
         field_facts = set()
         for i, o in enumerate(objs):
-            for fld in ("works_for", "member_of", "members", "sub_org_of", "partner_of", "head_of"):
+            for fld in ("works_for", "member_of", "members", "sub_org_of", "related_to", "partner_of", "head_of"):
                 if not hasattr(type(o), fld):
                     continue
                 val = getattr(o, fld)
@@ -248,7 +249,7 @@ def describe(tier):
     return dict(
         rule="sequences of %d assertions (bounded symbolic choices of subject, object, property and write form: single-valued assignment, container assignment, append/add, += / |=) "
         "over a population of orgs, humans and a boss role (harness ontology: WorksFor < MemberOf, Member inverse of MemberOf, HeadOf < WorksFor living on the role taker, "
-        "transitive SubOrgOf; and Holds < Touches < Near without inverses on a class with all three fields and on one without the middle field) - all orders, diamonds and cycles within the bound; the relations in the real SymbolGraph must equal a reference fixpoint closure of the "
+        "transitive SubOrgOf < RelatedTo; and Holds < Touches < Near without inverses on a class with all three fields and on one without the middle field) - all orders, diamonds and cycles within the bound; the relations in the real SymbolGraph must equal a reference fixpoint closure of the "
         "asserted facts and every managed field must hold exactly (as a set) the graph's outgoing relations for that field (multiplicities in list fields are C16's subject). non-trivial = every path asserts facts" % L,
         bounds=dict(sequence_length="3 (quick); 4 on the quick populations and 3 on 3 orgs + 2 humans + boss / 4 orgs + 1 human (thorough)", population="2 orgs + 2 humans + boss, 3 orgs + 1 human (quick); up to 4 orgs (thorough)"),
         outside=["re-assignment of a single-valued field (the earlier relation stays in the graph; the property does not say which wins)", "sequences longer than %d" % L],
